@@ -914,6 +914,15 @@ class RecordLayer(object):
 
             try:
                 if isinstance(header, RecordHeader2):
+                    # SSLv2 framing is only valid before TLS protection is
+                    # switched on (SSLv2 compatible ClientHello)
+                    if self.version not in ((0, 2), (2, 0)) and \
+                            self._readState and \
+                            (self._readState.encContext or
+                             self._readState.macContext):
+                        raise TLSUnexpectedMessage(
+                            "Record with unknown content type in a "
+                            "protected connection")
                     data = self._decryptSSL2(data, header.padding)
                     if self.handshake_finished:
                         header.type = ContentType.application_data
